@@ -1,6 +1,6 @@
-(* C12 — A remote File keeps os.File's offset and closed-state semantics. Theorems only; proofs in Proofs/TransferP.v *)
-From Coq Require Import List NArith ZArith Bool Arith Strings.Byte.
-From Sftp Require Import Base.GoSem Xfer.Transfer Proofs.TransferP.
+(* C12 — A remote File keeps os.File's offset and closed-state semantics. Theorems only; proofs in Proofs/TransferP.v, Proofs/FileOpsP.v *)
+From Coq Require Import List NArith ZArith Bool Arith Lia Strings.Byte.
+From Sftp Require Import Base.GoSem Xfer.Transfer Xfer.FileOps Proofs.TransferP Proofs.TransferE2EP Proofs.FileOpsP.
 Import ListNotations.
 
 (* Seek computes start-, current- and end-relative positions, rejects an invalid whence, and a failing Seek does not move *)
@@ -43,9 +43,51 @@ Theorem C12_readFrom_offset : forall fuel s p src off read s' n foff,
 Proof. intros. eapply readFromSeq_nil_means_all; eassumption. Qed.
 Print Assumptions C12_readFrom_offset.
 
-(* PARTIAL: offset refinement for every method sequence (Read/Write/WriteTo/ReadFrom advance by the bytes moved,
-   ReadAt/WriteAt do not move) and the Close/RWMutex interleaving argument are tied by the correspondence and oracle
-   runs (family c12: offsets against an os.File after every step; Close races against a logging peer), not yet theorems *)
+(* ===== refinement: a remote File is an os.File (Xfer/FileOps.v) =====
+   fstep is the File method layer of client.go (Read/Write/ReadFrom/WriteTo use and move File.offset, ReadAt/WriteAt/
+   Truncate/Stat do not, Seek as above) over the transfer paths; ostep is an os.File on a plain byte string. For EVERY
+   sequence of method calls with arbitrary lengths, offsets and whence values, under every packet size and every
+   read/write concurrency option (packet size within the server's payload limit, no injected failures): every call
+   returns the same count, the same error-or-not and the same data, and the served content and the offset agree after
+   every step. *)
+Theorem C12_file_refines_os_file : forall o ops s off s' off' rs,
+  wf o s -> frun o (s, off) ops = ((s', off'), rs) ->
+  orun (file s, off) ops = ((file s', off'), rs).
+Proof. exact frun_refines. Qed.
+Print Assumptions C12_file_refines_os_file.
+
+Theorem C12_step_refines : forall o s off op s' off' r,
+  wf o s -> fstep o (s, off) op = ((s', off'), r) ->
+  ostep (file s, off) op = ((file s', off'), r) /\ wf o s'.
+Proof. exact fstep_refines. Qed.
+Print Assumptions C12_step_refines.
+
+(* spelled out: which methods move the offset, and by how much *)
+Theorem C12_offsets_like_os : forall o s off op s' off' r,
+  wf o s -> fstep o (s, off) op = ((s', off'), r) ->
+  match op with
+  | FReadAt _ _ | FWriteAt _ _ | FTruncate _ | FStat => off' = off
+  | FRead _ | FWrite _ => off' = off + r_n r
+  | FReadFrom src _ => off' = off + length src /\ r_n r = length src
+  | FWriteTo => off' = Nat.max off (length (file s))
+  | FSeek _ _ => True
+  end.
+Proof. exact offsets_like_os. Qed.
+Print Assumptions C12_offsets_like_os.
+
+(* MODELLED / OBSERVED, NOT PROVED: the closed-state half (after Close every method returns os.ErrClosed, exactly one CLOSE
+   is sent, nothing carrying the handle is written afterwards even when Close races with other methods) depends on
+   File.mu (sync.RWMutex) and is decided per run by family c12 (Close races against a logging peer). The model fstep is
+   tied to client.go on every run: family c12 kind fseqm replays each random method sequence on the extracted model and
+   compares count, error, data and offset after every step and the final content. *)
 Example C12_nonvacuous :
   seek 5 20 SeekEnd (-3)%Z = (17, false) /\ seek 5 20 SeekCurrent (-6)%Z = (5, true) /\ seek 5 20 SeekBad 0%Z = (5, true).
 Proof. vm_compute. repeat split; reflexivity. Qed.
+
+Example C12_refinement_nonvacuous :
+  let o := mkOpts 3 2 true true false in
+  let s := mkSrv (pattern 0 10) 100 (fun _ => None) (fun _ => None) in
+  wf o s /\
+  map r_n (snd (frun o (s, 0) [FRead 4; FWrite (pattern 50 7); FSeek SeekEnd (-2)%Z; FRead 5; FReadAt 1 3; FWriteTo])) = [4; 7; 9; 2; 3; 0] /\
+  snd (fst (frun o (s, 0) [FRead 4; FWrite (pattern 50 7); FSeek SeekEnd (-2)%Z; FRead 5])) = 11.
+Proof. split; [repeat split; intros; try reflexivity; cbn; lia|]. vm_compute. split; reflexivity. Qed.
